@@ -33,9 +33,10 @@ def scenario(ctx, i):
     lab = np.concatenate([np.arange(K), r.integers(0, K, N - K)])
     x = centers[lab] + r.normal(size=(N, D)) * spread + offset
     cent = centers + 0.2 * r.normal(size=(K, D)) * spread + offset
+    x = gen.maybe_int(r, x, p=0.2, floats=False)  # integer-typed data arrays are legal input
     if K >= 2 and r.random() < 0.2:  # a centroid that attracts no sample (its weight is 0; the others are still the assigned fractions)
         cent[int(r.integers(0, K))] += 1e3 * spread
-    return dict(K=K, D=D, x=x, cent=cent, sizes=gen.random_composition(r, N), spread=spread, offset=offset)
+    return dict(K=K, D=D, x=x, x_dtype=str(x.dtype), cent=cent, sizes=gen.random_composition(r, N), spread=spread, offset=offset)
 
 
 def km(cent):
@@ -84,7 +85,7 @@ def correspondence(ctx):
         ctx.count(f"offset={sc['offset'] / sc['spread']:g}x")
         ctx.case([core.tolist(x), core.tolist(sc["cent"]), sc["sizes"]], nontrivial=sc["K"] >= 2,
                  sample={"K": sc["K"], "D": sc["D"], "rows": len(x), "offset": sc["offset"], "spread": sc["spread"], "labels_model": ml[:8]})
-        inp = {k: sc[k] for k in ("K", "D", "x", "cent", "sizes")}
+        inp = {k: sc[k] for k in ("K", "D", "x", "x_dtype", "cent", "sizes")}
         # distance tolerance relative to the largest distance in the problem (cdist and the direct form round differently)
         atol = 1e-9 * float(np.max(md)) if md.size else 0
 
@@ -149,26 +150,27 @@ def correspondence(ctx):
 
 def oracle(sc):
     """brute-force distances / nearest labels / assigned fractions / biased variances (tolerance relative to the spread)"""
-    x = np.asarray(sc["x"], dtype=float)
+    xin_ = np.asarray(sc["x"]).astype(sc.get("x_dtype", "float64"))  # the array as the implementation gets it
+    x = xin_.astype(float)
     cent = np.asarray(sc["cent"], dtype=float)
-    sc = dict(sc, x=x, cent=cent)
+    sc = dict(sc, x=xin_, cent=cent)
     m = km(cent)
     ref = brute(x, cent)
     keep = margins_ok(ref)
-    d = core.impl(lambda: np.asarray(m.transform(x)))
+    d = core.impl(lambda: np.asarray(m.transform(xin_)))
     if isinstance(d, core.ImplError) or d.shape != ref.shape:
         return {"sig": "transform-shape-or-raise", "what": repr(d)}
     if np.any(d < 0) or not core.close(d, ref, 1e-8, 1e-9 * float(ref.max())):
         return {"sig": "distances-not-squared-euclidean", "what": f"max deviation {np.max(np.abs(d - ref))}"}
-    for name, f in (("dask", lambda: np.asarray(m.transform(dask_of(sc)).compute())), ("single", lambda: np.hstack([np.asarray(m.transform(row)).reshape(len(cent), 1) for row in x]))):
+    for name, f in (("dask", lambda: np.asarray(m.transform(dask_of(sc)).compute())), ("single", lambda: np.hstack([np.asarray(m.transform(row)).reshape(len(cent), 1) for row in xin_]))):
         dd = core.impl(f)
         if isinstance(dd, core.ImplError) or dd.shape != ref.shape:
             return {"sig": "transform-shape-or-raise", "what": f"{name}: {dd!r}"}
         if np.any(dd < 0) or not core.close(dd, ref, 1e-8, 1e-9 * float(ref.max())):
             return {"sig": "distances-not-squared-euclidean", "what": f"{name}: max deviation {np.max(np.abs(dd - ref))} (largest distance {float(ref.max())})"}
     lab_ref = np.argmin(ref, axis=0)
-    for name, f in (("numpy", lambda: np.asarray(m.predict(x))), ("dask", lambda: np.asarray(m.predict(dask_of(sc)).compute())),
-                    ("single", lambda: np.array([int(np.asarray(m.predict(row)).reshape(-1)[0]) for row in x]))):
+    for name, f in (("numpy", lambda: np.asarray(m.predict(xin_))), ("dask", lambda: np.asarray(m.predict(dask_of(sc)).compute())),
+                    ("single", lambda: np.array([int(np.asarray(m.predict(row)).reshape(-1)[0]) for row in xin_]))):
         lab = core.impl(f)
         if isinstance(lab, core.ImplError) or lab.shape != lab_ref.shape or not np.array_equal(lab[keep], lab_ref[keep]):
             return {"sig": "label-not-nearest-centroid", "what": f"{name}: {lab!r} vs {lab_ref.tolist()}"}
@@ -178,7 +180,7 @@ def oracle(sc):
     full = counts > 0
     vref = np.array([x[lab_ref == k].var(axis=0) if full[k] else np.zeros(x.shape[1]) for k in range(len(cent))])
     spread2 = float(np.max(vref)) if np.max(vref) > 0 else 1.0
-    for name, xin in (("numpy", x), ("dask", dask_of(sc))):
+    for name, xin in (("numpy", xin_), ("dask", dask_of(sc))):
         r = core.impl(lambda: m.get_variances_and_weights_for_each_cluster(xin))
         if isinstance(r, core.ImplError):
             return {"sig": "variances-and-weights-raise", "what": repr(r)}
@@ -201,6 +203,7 @@ def search(ctx):
             sc["x"] = sc["x"] - sc["offset"] + shift
             sc["cent"] = sc["cent"] - sc["offset"] + shift
             sc["offset"] = shift
+            sc["x_dtype"] = str(np.asarray(sc["x"]).dtype)
         ctx.count(f"search:offset~1e{int(np.log10(max(sc['offset'] / sc['spread'], 1)))}")
         ctx.case(["s", core.tolist(sc["x"]), core.tolist(sc["cent"])], nontrivial=True)
         f = oracle(sc)
